@@ -56,6 +56,16 @@ def _line_item(asm, line):
     return None, False
 
 
+def _prelude_fn(asm, line):
+    """name of the hand-written (template) fn enclosing an assembled line: lemmas and shims"""
+    if line is None: return None
+    for ln in range(min(line, len(asm.lines)) - 1, -1, -1):
+        m = re.match(r'\s*(?:pub\s+)?(?:open\s+|closed\s+)?(?:broadcast\s+)?(proof|spec|exec)?\s*fn\s+(\w+)', asm.lines[ln])
+        if m: return ('lemma:' if m.group(1) == 'proof' else 'template:') + m.group(2)
+        if re.match(r'\S', asm.lines[ln]) and asm.lines[ln].startswith('}'): break
+    return None
+
+
 def run(asm, unit, build_dir, tag='unit', rlimit=None, extra_args=(), timeout=900):
     os.makedirs(build_dir, exist_ok=True)
     path = os.path.join(build_dir, tag + '.rs')
@@ -121,6 +131,8 @@ def run(asm, unit, build_dir, tag='unit', rlimit=None, extra_args=(), timeout=90
             for ln in range(prim['line_start'], prim['line_end'] + 1):
                 m = LABEL.search(asm.lines[ln - 1]) if ln - 1 < len(asm.lines) else None
                 if m: label = m.group(1); break
+        if item is None and prim:
+            item = _prelude_fn(asm, prim['line_start'])
         if any(re.search(p_, msg) for p_ in UNDECIDED_MSGS):
             if not in_vac:
                 res.undecided.append('%s (%s line %s)' % (msg, item or 'prelude', line_no)); continue
